@@ -29,6 +29,7 @@ Inductive gclass :=
 | GScalarShaped            (* rank-0 tensor operand (package functions route it to the scalar form) *)
 | GReduceDefault           (* a reduction step through the "default" kernel (neither first nor last axis) with axis <> 1 and extent <> 2 *)
 | GFlatRawWindow           (* whole-tensor (all-axes) reduction over the raw storage window of a tensor whose window is not its logical content *)
+| GShapeMisfit             (* operands whose shapes do not fit the operation *)
 | GOther.
 
 Definition slice_count_zero (s : slice) (dim : Z) : bool :=
